@@ -344,7 +344,10 @@ impl Mempool {
         match blockchain.get_latest_block() {
             Some(tip) => {
                 let gt = GoldenTicket::deserialize_from_net(&gt_tx.data);
-                GoldenTicket::create(tip.hash, gt.random, gt.public_key).validate(tip.difficulty)
+                // Block::validate also refuses a ticket that names the all-zero key
+                gt.public_key != [0; 33]
+                    && GoldenTicket::create(tip.hash, gt.random, gt.public_key)
+                        .validate(tip.difficulty)
             }
             None => true,
         }
